@@ -1,4 +1,5 @@
 import NitroVerif.Lemmas.Loader
+import NitroVerif.Lemmas.LoaderHeap
 /-!
 # C19 — loader tasks are isolated and safe under any sequence of loader calls
 
@@ -103,11 +104,6 @@ theorem C19_files_spec (env : Env P S J) (σ : St P S J) (hd : σ.dead = false) 
       | error c => rw [register_err env _ _ _ _ hp]
       | ok imps => rw [register_ok env _ _ _ _ hp]; simp only; rw [lookup_insert]
 
-/-- the history that gives a fresh task (which gets id `n`) the files of `T`: initiate with the root's
-    source, then supply every file -/
-def freshHist (n : Nat) (T : Task P S) (rootSrc : S) : List (Op P S) :=
-  .call (.initiate T.root rootSrc) :: supplyAll n T.files
-
 /-- `emit_js` of a task in any reachable state answers exactly what a FRESH task answers that is created,
     in any live instance `σ0` (other tasks, other results, other ids), from the same root and given the
     same files: the emitted module depends only on the files currently held by the task — not on the order
@@ -165,13 +161,6 @@ theorem C19_isolation (env : Env P S J) (he : EmitTotal env) (t : Nat) (h : List
     respsOf env t init h = runResps env init ((proj env t init h).map .call) :=
   sim_run env he t h init init (sim_init t)
 
-/-- an emitter that panics on one particular root document (source 1), as the pinned printer did on
-    `query Q { ...Missing }` -/
-def trapEnv : Env Nat Nat Nat :=
-  ⟨fun _ => .ok [], fun a _ => a, fun _ look => match look 0 with
-    | some d => if d.src = 1 then .trap else .js 0
-    | none => .js 0⟩
-
 /-- `EmitTotal` cannot be dropped: when task 2's emission traps, task 1's next call traps too, although the
     projection onto task 1 (`initiate`, `required`) answers normally. This is the model-level image of the
     defect repaired by /repo commit 08fd7e5 (replayed on the real code by the harness corpus). -/
@@ -179,6 +168,67 @@ theorem C19_isolation_needs_emit_total :
     respsOf trapEnv 1 init [.initiate 0 0, .initiate 0 1, .emit 2, .required 1]
       ≠ runResps trapEnv init ((proj trapEnv 1 init [.initiate 0 0, .initiate 0 1, .emit 2, .required 1]).map .call) := by
   decide
+
+/-- No call traps: with a total emitter, every response of every history of calls (any ids, live, freed or
+    never issued; any sources) is a value or an error result, never a trap. -/
+theorem C19_no_trap (env : Env P S J) (he : EmitTotal env) (h : List (Call P S)) :
+    ∀ r ∈ runResps env init (h.map .call), r ≠ .trap :=
+  run_calls_alive env he h init rfl rootOk_init
+
+/-- Heap safety in every reachable state (any history incl. `get_result`, any parser / emitter), for every
+    source buffer ever leaked by `register_file`:
+    1. it has been freed at most once, never while a parsed document still borrowed it and never by a task
+       that does not own it (`bad = false`);
+    2. it is freed exactly when its owner task has been dropped (the task of a failed `initiate_task`, which is
+       dropped within the call, or a task id that is no longer live): freed only at the owner's drop, and
+       nothing is leaked when a task is dropped;
+    3. a buffer borrowed by a live document is not freed;
+    4. the drop list of a live task has no duplicates, is exactly the set of buffers the task owns, and the
+       buffers its documents borrow are among them (a task reads and frees only memory it owns). -/
+theorem C19_heap_safe (env : Env P S J) (h : List (Op P S)) :
+    (∀ b ∈ (runSt env init h).heap, b.freed ≤ 1 ∧ b.bad = false) ∧
+    (∀ b ∈ (runSt env init h).heap,
+      (b.freed = 1 ↔ (b.owner = none ∨ ∃ t, b.owner = some t ∧ lookup (runSt env init h).tasks t = none))) ∧
+    (∀ b ∈ (runSt env init h).heap, b.borrowed = true → b.freed = 0) ∧
+    (∀ t T, lookup (runSt env init h).tasks t = some T →
+      T.drops.Nodup ∧ (∀ id, id ∈ T.drops ↔ ∃ b ∈ (runSt env init h).heap, b.id = id ∧ b.owner = some t) ∧
+      ∀ e ∈ T.borrows, e.2 ∈ T.drops) := by
+  have hi := run_heapInv env h init heapInv_init
+  generalize runSt env init h = σ at hi
+  obtain ⟨a, b, c', d, e, g, l, k⟩ := hi
+  refine ⟨fun x hx => ⟨(c' x hx).2, (c' x hx).1⟩, ?_, ?_, ?_⟩
+  · intro x hx
+    constructor
+    · intro hf
+      cases ho : x.owner with
+      | none => exact Or.inl rfl
+      | some t =>
+        right
+        cases hl : lookup σ.tasks t with
+        | none => exact ⟨t, rfl, hl⟩
+        | some T => have := (l x hx t T ho hl).1; omega
+    · rintro (ho | ⟨t, ho, hl⟩)
+      · exact (d x hx ho).1
+      · exact (g x hx t ho hl).1
+  · intro x hx hb
+    cases ho : x.owner with
+    | none => have := (d x hx ho).2; rw [hb] at this; cases this
+    | some t =>
+      cases hl : lookup σ.tasks t with
+      | none => have := (g x hx t ho hl).2; rw [hb] at this; cases this
+      | some T => exact (l x hx t T ho hl).1
+  · intro t T hl
+    obtain ⟨k1, k2, k3⟩ := k t T hl
+    refine ⟨k1, fun id => ⟨k2 id, ?_⟩, k3⟩
+    rintro ⟨x, hx, rfl, ho⟩
+    exact (l x hx t T ho hl).2.1
+
+/-- non-vacuity of the heap claims: a concrete history that leaks, re-supplies, fails and frees buffers -/
+example : (runSt (⟨fun s => if s = 4 then .error 1 else .ok [], fun a _ => a, fun _ _ => .js 0⟩ : Env Nat Nat Nat) init
+    [.call (.initiate 0 0), .call (.load 1 1 2), .call (.load 1 1 3), .call (.load 1 1 4), .call (.initiate 0 4),
+     .call (.free 1)]).heap.map (fun b => (b.owner, b.freed, b.borrowed, b.bad))
+    = [(some 1, 1, false, false), (some 1, 1, false, false), (some 1, 1, false, false), (some 1, 1, false, false),
+       (none, 1, false, false)] := by decide
 
 example : Live (runSt (⟨fun _ => .ok [], fun a _ => a, fun _ _ => .js 0⟩ : Env Nat Nat Nat) init [.call (.initiate 0 0)]) 1 := by
   unfold Live; decide
